@@ -414,7 +414,7 @@ def r01_6(run, model):
     arm = None
     for m in S.find(f.body, "Match"):
         for a in m["arms"]:
-            if S.norm_ws(run.facts.text(GO, a["pat"]["sp"])) == '"vec_push"':
+            if re.fullmatch(r'(Some\()?"vec_push"\)?', S.norm_ws(run.facts.text(GO, a["pat"]["sp"]))):
                 arm = a
     if arm is None:
         raise AnalysisIncomplete("compile_cexpr: the arm lowering vec_push was not found")
